@@ -1000,6 +1000,29 @@ fn oracle_wrap(meta: &mut Meta, rng: &mut Rng, n: usize) -> (usize, usize) {
             }
         }
     }
+    // the value a call leaves on the stack is a SAFE string holding the component's output
+    register_probe(&mut tera);
+    for e in ["c", "a.x", "\"<lit>\"", "c | safe"] {
+        for (cname, ctx) in &ctxs {
+            for ae in [false, true] {
+                take_probe();
+                let direct = guarded(|| tera.render_str(&format!("{{{{ {e} }}}}"), ctx, ae));
+                let via = guarded(|| tera.render_str(&format!("{{{{ <show v={{{e}}} /> | probe }}}}"), ctx, ae));
+                let probed = take_probe().pop();
+                runs += 1;
+                meta.oracle_checks += 1;
+                if let (Outcome::Ok(d), Outcome::Ok(_)) = (&direct, &via) {
+                    let ok = matches!(&probed, Some(v) if v.is_safe() && v.as_str() == Some(d.as_str()));
+                    if !ok {
+                        meta.oracle_fail("the value of a component call is not a safe string holding its output", None,
+                            json!({"expr": e, "context": cname, "autoescape": ae, "direct": d, "probed": probed.as_ref().map(json_value)}));
+                    }
+                } else if !same_outcome(&via, &direct) {
+                    meta.oracle_fail("component call fails differently from printing its argument", None, json!({"expr": e, "context": cname, "autoescape": ae}));
+                }
+            }
+        }
+    }
     // inline results: `{{ <show v={e} /> }}` prints what `{{ e }}` prints, also through two levels
     for e in ["c", "a.x", "b[1]", "a.y.z", "c ~ \"<lit>\"", "\"<lit>\"", "c | safe", "a.y.x[0]"] {
         for (cname, ctx) in &ctxs {
